@@ -321,3 +321,24 @@ reuse("C13.finite_discrete", "C09.finite_discrete_kernel_leaves_the_users_model_
 import contracts.c02  # noqa: E402,F401
 
 reuse("C02.bare_distribution_node_counts_in_log_prob", "C09.stored_log_prob_counts_every_distribution_node", "C09")
+
+
+@unit("C09.kernels_work_on_the_model_the_engine_is_built_with", "C09", [f"{BUILDER}.set_model", f"{BUILDER}.add_kernel", f"{BUILDER}.build", "liesel/goose/engine.py::Engine.__init__"],
+      assumptions=["REAL builder; history: set_model(A) - add_kernel x 2 - set_model(B) - build (a model interface that was corrected / rebuilt before sampling); kernels that "
+                   "do not bring an interface of their own"])
+def u_model_rebinding(ip):
+    """'recomputed from the stored parameter values' is with respect to ONE model: the kernels evaluate and update states with the interface the engine is built
+    with - the one the builder holds at build() - not with an interface that was current when the kernel was added."""
+    c = ip.ctx
+    from contracts.c10 import builder_setup
+    b, mk = builder_setup(ip)  # set_model(A), set_initial_values, add_kernel x 2
+    ip.call(method(ip, b, "set_epochs"), [mk(((0, 1, 1), (4, 6, 1)))], {})
+    model_b = PyObj("model_B", extract_position=PyFn(lambda ip_, keys, st: {k: ip_.uf("extract_B", z3.Const(f"str:{k}", U), ip_.to_U(st)) for k in keys}, "extract_position"),
+                    update_state=PyFn(lambda ip_, pos, st: ip_.uf("update_state_B", ip_.to_U(pos), ip_.to_U(st)), "update_state"))
+    ip.call(method(ip, b, "set_model"), [model_b], {})
+    kind, eng = try_call(ip, method(ip, b, "build"), [], {})
+    c.oblige("build_succeeds", kind == "ok")
+    if kind != "ok":
+        return
+    ks = ip.call(method(ip, eng.f["_kernel_sequence"], "get_kernels"), [], {})
+    c.oblige("every_kernel_is_bound_to_the_engines_model", len(ks) == 2 and all(k.attrs.get("_model") is model_b for k in ks) and eng.f["_model"] is model_b)
